@@ -39,5 +39,5 @@ func ledger(run *ev.Run, what string, mons ...chainsim.Monitor) {
 		ev.Fatal("unknown scenario %s", which)
 	}
 	run.Rule = what + " oracle of the chain-level group (lib/mon) on every transition of the " + which + " scenario: " + sc.rule
-	explore(run, sc.w, sc.acts, sc.roots, run.Pick(sc.dq, sc.dt), sc.ignoreTime, 40, 600, mons...)
+	explore(run, sc.w, sc.acts, sc.roots, run.Pick(sc.dq, sc.dt), sc.ignoreTime, 40, 240, mons...)
 }
